@@ -136,6 +136,15 @@ class Sort(Reordering):
                 done=False,
                 messages=(f"{current.operation} is order-dependent",),
             )
+        if isinstance(current.operation, Reordering):
+            # The operation applied last determines the final order, so a Sort
+            # cannot be moved upstream of another reordering operation.
+            return UnaryCommutator(
+                first=None,
+                second=current.operation,
+                done=False,
+                messages=(f"{current.operation} also reorders rows",),
+            )
         return UnaryCommutator(self, current.operation)
 
     def simplify(self, upstream: UnaryOperation) -> UnaryOperation | None:
